@@ -56,33 +56,47 @@ def run(ctx):
             rp = dict(spec=spec, weights=w)
             # ---- degenerate tables: k-mode == cross-section mode, both model families
             tmodel.write_ktables(spec, kdir, w)
-            for em in (False, True):
-                with np.errstate(all='ignore'):
-                    ma = tmodel.build(spec, emission=em)
-                    a = ma.model()
-                    b = tmodel.build(spec, emission=em, kdir=kdir).model()
-                atol_em = 0.0
-                if em:
-                    # the cross-section path replaces exp(-tau) by 0 where tau >= 10 over the whole grid (each such term is
-                    # at most exp(-10)); by summation by parts the layer sum  sum_l B_l (g_{l+1} - g_l)  then moves by at
-                    # most exp(-10) (B_top + B_bottom + total variation of B over the layers)
-                    from taurex.util.emission import black_body
-                    Bl = np.array([black_body(np.array(a[0]), float(t_)) for t_ in ma.temperatureProfile])
-                    bound = Bl[0] + Bl[-1] + np.sum(np.abs(np.diff(Bl, axis=0)), axis=0)
-                    atol_em = math.exp(-10) * bound / np.array(ma.star.spectralEmissionDensity) * \
-                        (ma.planet.fullRadius / ma.star.radius) ** 2
-                ctx.case(('degenerate', em, i, float(a[1][0])),
-                         nontrivial=bool(np.any((a[2] > 1e-6) & (a[2] < 1 - 1e-6))) or em)
-                ok = bool(np.all(np.abs(a[1] - b[1]) <= atol_em + (1e-7 if em else 1e-9) * np.abs(a[1]))) and np.array_equal(a[0], b[0])
-                if not em:
-                    ok = ok and np.allclose(a[2], b[2], rtol=0, atol=1e-9)
-                if ok:
-                    ctx.validated()
-                else:
-                    ctx.violation('degenerate:' + ('emission' if em else 'transmission'),
-                                  'degenerate k-tables give %r, cross-sections give %r (%s, weights %r)'
-                                  % (b[1], a[1], 'emission' if em else 'transmission', w.tolist()), replay=rp)
-                ctx.count('degenerate:' + ('emission' if em else 'transmission'))
+            # the same files are loaded again after the interpolation setting is changed through the public setter
+            # (OpacityCache().set_interpolation): both opacity modes then follow the NEW setting
+            from taurex.cache import OpacityCache
+            modes_ = ['linear'] + (['exp'] if (i < 2 or rng.random() < 0.35) else [])
+            for mode_ in modes_:
+                spec_m = spec if mode_ == 'linear' else dict(spec, opac={g_: dict(o_, mode='exp') for g_, o_ in spec['opac'].items()})
+                if mode_ != 'linear':
+                    OpacityCache().set_interpolation(mode_)
+                    ctx.count('interpolation switched to exp, same k-table files loaded again')
+                for em in (False, True):
+                    with np.errstate(all='ignore'):
+                        ma = tmodel.build(spec_m, emission=em)
+                        a = ma.model()
+                        b = tmodel.build(spec_m, emission=em, kdir=kdir).model()
+                    atol_em = 0.0
+                    if em:
+                        # the cross-section path replaces exp(-tau) by 0 where tau >= 10 over the whole grid (each such term is
+                        # at most exp(-10)); by summation by parts the layer sum  sum_l B_l (g_{l+1} - g_l)  then moves by at
+                        # most exp(-10) (B_top + B_bottom + total variation of B over the layers)
+                        from taurex.util.emission import black_body
+                        Bl = np.array([black_body(np.array(a[0]), float(t_)) for t_ in ma.temperatureProfile])
+                        bound = Bl[0] + Bl[-1] + np.sum(np.abs(np.diff(Bl, axis=0)), axis=0)
+                        atol_em = math.exp(-10) * bound / np.array(ma.star.spectralEmissionDensity) * \
+                            (ma.planet.fullRadius / ma.star.radius) ** 2
+                    ctx.case(('degenerate', em, i, float(a[1][0])),
+                             nontrivial=bool(np.any((a[2] > 1e-6) & (a[2] < 1 - 1e-6))) or em)
+                    # (exp interpolation of a table holding exact zeros is NaN on both paths: equal, and not this property's matter)
+                    both_nan = np.isnan(a[1]) & np.isnan(b[1]) & (mode_ == 'exp')
+                    ok = bool(np.all(both_nan | (np.abs(a[1] - b[1]) <= atol_em + (1e-7 if em else 1e-9) * np.abs(a[1])))) and np.array_equal(a[0], b[0])
+                    if not em:
+                        ok = ok and np.allclose(a[2], b[2], rtol=0, atol=1e-9, equal_nan=(mode_ == 'exp'))
+                    if ok:
+                        ctx.validated()
+                    else:
+                        ctx.violation('degenerate:' + ('emission' if em else 'transmission'),
+                                      'degenerate k-tables give %r, cross-sections give %r (%s, weights %r, interpolation %s)'
+                                      % (b[1], a[1], 'emission' if em else 'transmission', w.tolist(), mode_),
+                                      replay=dict(rp, interpolation=mode_))
+                    ctx.count('degenerate:' + ('emission' if em else 'transmission'))
+            if len(modes_) > 1:
+                OpacityCache().set_interpolation('linear')
             # ---- general tables: weight-averaged exponential, bounded below by the averaged coefficient
             kc = {}
             avg = dict(spec)
